@@ -148,8 +148,8 @@ fn run_set<S: PS>(ctx: &Ctx) -> Acc {
             0 | 1 => ("generated", r::keygen_internal(p, &xi).1),
             2 => ("hostile-random", gen::hostile_sk(&mut g, p, SPat::Random, T0Pat::Random)),
             _ => {
-                let sp = *g.pick(&[SPat::AllMinus, SPat::AllPlus, SPat::Alternating, SPat::Zero, SPat::Random]);
-                let tp = *g.pick(&[T0Pat::Zero, T0Pat::Random, T0Pat::AllTop, T0Pat::AllBottom]);
+                let sp = *g.pick(&[SPat::AllMinus, SPat::AllPlus, SPat::Alternating, SPat::Zero, SPat::Random, SPat::NttSparse]);
+                let tp = *g.pick(&[T0Pat::Zero, T0Pat::Random, T0Pat::AllTop, T0Pat::AllBottom, T0Pat::NttSparse]);
                 ("hostile-extremal", gen::hostile_sk(&mut g, p, sp, tp))
             }
         };
